@@ -9,7 +9,7 @@ from ..lang import CMP_OPS
 PROPERTY = "C16"
 LEVEL = "exploration"
 TIMEOUT = 300
-BUDGET = {"quick": 150, "thorough": 1500}
+BUDGET = {"quick": 600, "thorough": 3600}
 REQUIRED_MONITORS = ["loop_expansions"]
 RULE = ("Programs with for loops (every (start, stop, step) triple of a box incl. negatives, empty ranges and "
         "non-dividing steps, ascending ranges without step, bounds through int variables, list iterators incl. "
